@@ -63,6 +63,7 @@ type apiResp struct {
 	CT      string `json:"ct"`
 	Proxies string `json:"proxies"` // raw GET /proxies after the request
 	Listening []string `json:"listening"` // the probe addresses that accept a connection after the request
+	Status2 int `json:"status2,omitempty"` // -1: the GET /proxies after the request never returned
 	Panic   string `json:"panic,omitempty"`
 }
 
@@ -106,9 +107,27 @@ func runAPI(raw []byte) interface{} {
 	for i, c := range in.Cases {
 		server := toxiproxy.NewServer(toxiproxy.NewMetricsContainer(nil), zerolog.Nop())
 		h := server.Routes()
+		stuck := false
 		for _, r := range c.Reqs {
-			resp := doReq(h, r)
-			after := doReq(h, apiReq{Method: "GET", Path: "/proxies"})
+			if stuck {
+				out[i] = append(out[i], apiResp{Status: -2})
+				continue
+			}
+			resp, ok := doReqBounded(h, r)
+			if !ok {
+				// the request never returned: the server is wedged, nothing after it can be judged
+				out[i] = append(out[i], apiResp{Status: -1, Panic: ""})
+				stuck = true
+				continue
+			}
+			after, ok2 := doReqBounded(h, apiReq{Method: "GET", Path: "/proxies"})
+			if !ok2 {
+				resp.Proxies = ""
+				resp.Status2 = -1
+				out[i] = append(out[i], resp)
+				stuck = true
+				continue
+			}
 			resp.Proxies = after.Body
 			resp.Listening = []string{}
 			for _, a := range c.Probes {
@@ -119,7 +138,21 @@ func runAPI(raw []byte) interface{} {
 			}
 			out[i] = append(out[i], resp)
 		}
-		server.Collection.Clear()
+		if !stuck {
+			server.Collection.Clear()
+		}
 	}
 	return out
+}
+
+// doReqBounded runs the request in a goroutine of its own and gives up after 6 s (a wedged handler is left behind)
+func doReqBounded(h http.Handler, r apiReq) (apiResp, bool) {
+	ch := make(chan apiResp, 1)
+	go func() { ch <- doReq(h, r) }()
+	select {
+	case resp := <-ch:
+		return resp, true
+	case <-time.After(6 * time.Second):
+		return apiResp{}, false
+	}
 }
